@@ -172,6 +172,20 @@ def sources(ctx):
     for o in BIN:
         out.append((f"a if b else c {o} d if e else f", "condchain",
                     ("tree", ("?", nm("b"), nm("a"), ("?", nm("e"), reference_tree(["c", "d"], [o]), nm("f"))))))
+    # a test written without arguments, followed by every keyword that continues the expression (documented reading:
+    # the test ends there): inline if with and without else, and, or, the else of an enclosing inline if
+    for tname in ("defined", "odd", "t", "none", "sameas"):
+        for neg in (False, True):
+            isn = ("is", nm("a"), tname, [])
+            isn = ("!", isn) if neg else isn
+            txt = "a is " + ("not " if neg else "") + tname
+            out.append((txt + " if b else c", "test-then-keyword", ("tree", ("?", nm("b"), isn, nm("c")))))
+            out.append((txt + " if b", "test-then-keyword", ("tree", ("?", nm("b"), isn, None))))
+            out.append((txt + " and b", "test-then-keyword", ("tree", ("&", isn, nm("b")))))
+            out.append((txt + " or b", "test-then-keyword", ("tree", ("|", isn, nm("b")))))
+            out.append(("x if " + txt + " else y", "test-then-keyword", ("tree", ("?", isn, nm("x"), nm("y")))))
+            out.append(("x if y else " + txt + " if b else c", "test-then-keyword", ("tree", ("?", nm("y"), nm("x"), ("?", nm("b"), isn, nm("c"))))))
+            out.append(("not " + txt + " if b else c", "test-then-keyword", ("tree", ("?", nm("b"), ("!", isn), nm("c")))))
     for o1, o2 in itertools.product(BIN, repeat=2):
         out.append((f"a {o1} b if c {o2} d else e", "cond", None))
         out.append((f"a if b {o1} c", "cond", None))
